@@ -102,9 +102,9 @@ type Embedded struct {
 }
 
 type Recursive struct {
-	V    int          `json:"v"`
-	Next *Recursive   `json:"next,omitempty"`
-	Kids []Recursive  `json:"kids,omitempty"`
+	V    int                   `json:"v"`
+	Next *Recursive            `json:"next,omitempty"`
+	Kids []Recursive           `json:"kids,omitempty"`
 	M    map[string]*Recursive `json:"m,omitempty"`
 }
 
@@ -554,15 +554,15 @@ type WithNE struct {
 }
 
 type WithCB struct {
-	A  int             `json:"a"`
-	M  MJ              `json:"m"`
-	P  *MJP            `json:"p"`
-	T  MT              `json:"t"`
-	C  MJC             `json:"c"`
-	Z  string          `json:"z"`
-	MK map[MT]int      `json:"mk"`
-	L  []MJ            `json:"l"`
-	PL []*MJP          `json:"pl"`
+	A  int        `json:"a"`
+	M  MJ         `json:"m"`
+	P  *MJP       `json:"p"`
+	T  MT         `json:"t"`
+	C  MJC        `json:"c"`
+	Z  string     `json:"z"`
+	MK map[MT]int `json:"mk"`
+	L  []MJ       `json:"l"`
+	PL []*MJP     `json:"pl"`
 }
 
 type WithUCB struct {
